@@ -9,7 +9,7 @@ from vlib.simharness import Harness, RefSim, enc_ref, enc_obs
 
 ID = "C05"
 RULE = ("Hypothesis (program, fault choice, strategy, drive) tuples: program as in C02 without illegal requests; "
-        "handlers in the fault set perform all their actions and then raise (an exception with a message, without arguments, StopIteration, AssertionError, KeyError, one with format characters in its text, one with non-string arguments, or a BaseException that is no Exception); fault choice = Hypothesis subset of "
+        "handlers in the fault set perform all their actions and then raise (an exception with a message, without arguments, StopIteration, AssertionError, KeyError, one with format characters in its text, one with non-string arguments, a BaseException that is no Exception, or the uncaught error of an illegal scheduling request made by the handler); fault choice = Hypothesis subset of "
         "the executed events (indices into the fault-free run) or, for programs with <=16 executed events, EVERY "
         "single fault index in turn ('all-singles'); strategy in {LOG_AND_CONTINUE, WARN_AND_CONTINUE, "
         "WARN_AND_PAUSE}, set with or without an explicit log level, possibly after another strategy, before the first initialize / after it / before a re-initialization (or cleanup + initialize) of the same simulator, and possibly changed by a handler during the run; events are plain SimEvents or instances of a SimEvent subclass whose execute() lets the handler's own exception through; drive in {start, bounded runs at fractions of the horizon, steps, mixed}. Oracle: "
@@ -50,7 +50,7 @@ def strategy(tier):
         "when": st.sampled_from(["after-init", "after-init", "before-init", "before-reinit", "before-cleanup-init"]),
         "direct": st.booleans(),
         "fault_kind": st.sampled_from(["msg", "msg", "msg", "noargs", "stopiteration", "assert", "keyerror",
-                                       "odd-message", "non-str-arg", "base"]),
+                                       "odd-message", "non-str-arg", "base", "bad-request", "bad-request"]),
         "drive": st.sampled_from(["start", "bounded", "step", "mixed"]),
         "cuts": st.lists(st.integers(1, 9), min_size=1, max_size=4),
         "mix": st.lists(st.sampled_from(["step", "run", "step", "start"]), min_size=1, max_size=10),
